@@ -888,9 +888,17 @@ def expand(template_path, repo_root, verif_root, registry, _depth=0):
         line = lines[i]
         m = _dir_re.match(line)
         if not m:
-            if line.lstrip().startswith("//@"):
+            if line.lstrip().startswith("//@") and not line.lstrip().startswith("//@label"):
                 raise ExtractError("%s:%d: stray directive line: %s" % (rel_t, i + 1, line.strip()))
-            out.append(Piece(line + "\n", label="T:%s:%d" % (rel_t, i + 1)))
+            ml = re.search(r"//@label\s+(\S+)\s*(\S*)", line)
+            if ml:
+                props = [x for x in ml.group(2).split(",") if x]
+                registry.append({"mode": "template", "file": rel_t, "item": ml.group(1), "name": ml.group(1), "line": i + 1,
+                                 "rules": {}, "clauses": [("req", ml.group(1), props)], "canary": False,
+                                 "tline": "%s:%d" % (rel_t, i + 1)})
+                out.append(Piece(line + "\n", label=ml.group(1)))
+            else:
+                out.append(Piece(line + "\n", label="T:%s:%d" % (rel_t, i + 1)))
             i += 1
             continue
         mode, arg1, arg2 = m.group(1), m.group(2), m.group(3)
